@@ -17,11 +17,14 @@ best = {}
 for r in res:
     for v in r.get("violations", []):
         size = len(canon(v["replay"]))
-        if v["class"] not in best or size < best[v["class"]][0]:
-            best[v["class"]] = (size, v["replay"])
+        key = v["class"]
+        if hasattr(check, "harvest_key"):
+            key += "|" + check.harvest_key(v)
+        if key not in best or size < best[key][0]:
+            best[key] = (size, v["replay"])
 os.makedirs(out, exist_ok=True)
 for cls, (size, rep) in sorted(best.items()):
-    name = cls.replace(":", "-").replace("/", "_") + ".json"
+    name = "".join(ch if ch.isalnum() or ch in "-_." else "-" for ch in cls)[:120] + ".json"
     json.dump(rep, open(os.path.join(out, name), "w"), indent=1, sort_keys=True, default=repr)
     print(cls, size, name)
 print("errors", errs[:2])
